@@ -125,6 +125,101 @@ def session_program(rng, fam, labelled, overflow):
     return lines, meta
 
 
+def unc_program(rng, fam):
+    """an `alter_uncommitted` / `VecAssembler::alter` / `SimpleAssembler::alter` session: the cursor is an ABSOLUTE assembly offset, the buffer
+    it indexes starts at the committed length (non-zero on an Assembler that has committed something)"""
+    unit = asmgen.UNIT[fam]
+    host = rng.choice(["simple", "vec", "asm", "asm", "asm"])
+    lines = [{"simple": "new simple", "vec": f"new vec {fam} base=0", "asm": f"new asm {fam}"}[host]]
+    base = 0
+    if host == "asm" and rng.chance(4, 5):
+        base = unit * rng.choice([1, 2, 3, 8, 16, 100, 1024, 1025])
+        lines += [f"ex {hexb(rng.bytes(base))}", "c"]
+    size = unit * rng.range(1, 40)
+    lines.append(f"ex {hexb(rng.bytes(size))}")
+    lines.append("unc{")
+    cursor = base
+    free = [(base, base + size)]
+    for _ in range(rng.range(1, 9)):
+        c = rng.below(100)
+        room = next((b - cursor for (a, b) in free if a <= cursor < b), 0)
+        if c < 30 and free:
+            a, b = rng.choice(free)
+            if b - a >= unit:
+                cursor = a + unit * rng.below((b - a) // unit)
+                lines.append(f"goto {cursor}")
+        elif c < 60:
+            k = unit * rng.range(1, 5)
+            if k <= room:
+                lines.append(f"{rng.choice(['e', 'ex', 'ev'])} {hexb(rng.bytes(k))}")
+                free = cut(free, cursor, cursor + k)
+                cursor += k
+        elif c < 80:
+            lines.append(f"{rng.choice(['chk', 'chkx'])} {rng.choice([cursor, cursor + unit, max(0, cursor - unit), cursor - base, base, rng.below(base + size + 2)])}")
+        elif c < 88:
+            lines.append("off")
+        else:
+            al = rng.choice([2, 4, 8, 16]) if unit > 1 else rng.choice([2, 3, 4, 8])
+            pad = asmgen.align_pad(cursor, al)
+            if pad <= room:
+                lines.append(f"al {al} {rng.below(256)}")
+                free = cut(free, cursor, cursor + pad)
+                cursor += pad
+    lines += ["}unc", "fin"]
+    return lines, {"kind": "unc", "base": base, "overflow": False, "labelled": False}
+
+
+def unc_evaluator(p, res, meta):
+    """python overlay for the uncommitted modifier: absolute cursor, writes land at cursor - base in the pending bytes"""
+    image, pending = bytearray(), bytearray()
+    cursor, inside = 0, False
+    for (req, a, _) in res:
+        ws = req.split()
+        k = ws[0]
+        if a == "dead":
+            continue
+        if a == "bad-op":
+            return None         # not a program (the shrinker removes lines; a session operation outside its block means nothing)
+        if a == "panic":
+            return ({"kind": "panic", "op": k}, f"`{req[:50]}` panicked although it fits (cursor {cursor}, base {len(image)}, pending {len(pending)})")
+        bs = asmgen.parse_emit(ws)
+        if bs is None and k == "al" and inside:
+            bs = bytes([int(ws[2]) & 0xFF]) * asmgen.align_pad(cursor, int(ws[1]))
+        if bs is not None:
+            if inside:
+                pending[cursor - len(image):cursor - len(image) + len(bs)] = bs
+                cursor += len(bs)
+            else:
+                pending += bs
+        elif k == "c" and a.startswith("ok"):
+            image += pending
+            pending = bytearray()
+        elif k == "unc{":
+            inside, cursor = True, len(image)
+        elif k == "}unc":
+            inside = False
+        elif k == "goto":
+            cursor = int(ws[1])
+        elif k == "off" and inside:
+            if int(a) != cursor:
+                return ({"kind": "cursor"}, f"offset() of the uncommitted modifier is {a}, the cursor should be at {cursor}")
+        elif k == "chk" and inside:
+            want = "err CheckFailed" if cursor > int(ws[1]) else "ok"
+            if a != want:
+                return ({"kind": "check"}, f"check({ws[1]}) with the cursor at {cursor} (buffer starts at {len(image)}) returned `{a}`")
+        elif k == "chkx" and inside:
+            want = "err CheckFailed" if cursor != int(ws[1]) else "ok"
+            if a != want:
+                return ({"kind": "check-exact"}, f"check_exact({ws[1]}) with the cursor at {cursor} (buffer starts at {len(image)}) returned `{a}`")
+        elif k == "fin" and a.startswith("ok"):
+            got = bytes.fromhex(a.split()[-1][1:])
+            want = bytes(image + pending)
+            if got != want:
+                j = next((i for i in range(min(len(got), len(want))) if got[i] != want[i]), min(len(got), len(want)))
+                return ({"kind": "frame"}, f"finalized code differs from the overlay at offset {j} (lengths {len(got)} / {len(want)})")
+    return None
+
+
 def cut(free, a, b):
     out = []
     for (x, y) in free:
@@ -240,7 +335,7 @@ def check(run):
     found_before = len(run.violations) + len(run.known_hit)
     progs, metas = [], []
     nontrivial = 0
-    for i in range(6000 if thorough else 2000):
+    for i in range(60000 if thorough else 2000):
         fam = rng.choice(["x64", "x86", "a64", "rv"])
         labelled = rng.chance(2, 5)
         overflow = rng.chance(1, 4)
@@ -249,7 +344,11 @@ def check(run):
         metas.append(meta)
         if meta["overflow"] or sum(1 for l in lines if l.startswith("goto")) >= 2 or any(l.split()[0] in ("rf", "rb", "rg", "rd") for l in lines):
             nontrivial += 1
-    stats = asmprops.process(run, progs, evaluator, metas, chunk=100)
+    for i in range(20000 if thorough else 800):
+        lines, meta = unc_program(rng, rng.choice(["x64", "x86", "a64", "rv"]))
+        progs.append(lines)
+        metas.append(meta)
+    stats = asmprops.process(run, progs, lambda p, res, meta: (unc_evaluator if meta and meta.get("kind") == "unc" else evaluator)(p, res, meta), metas, chunk=100)
     run.coverage["evaluations"] = len(progs)
     run.coverage["distinct_nontrivial"] = nontrivial
     run.coverage["traces_validated_against_impl"] = stats["requests"]
